@@ -217,9 +217,9 @@ def run(ctx, chk, tier):
             if not tot_ok:
                 # integer identities such as n//2 + (n + 1)//2 = n: a sum of floor-divisions (by positive constants) of linear terms in n is
                 # linear on every residue class modulo the lcm L of the divisors, so agreement on [0, 2L + 1] is agreement for all n >= 0
-                import math
-                from ..numeval import evaluate, CannotEvaluate
-                from fractions import Fraction
+                import math as _math
+                from ..numeval import evaluate as _evaluate, CannotEvaluate as _CannotEvaluate
+                from fractions import Fraction as _Fraction
                 fds = [a_ for a_ in [tot] + list(atoms_of(tot)) if isinstance(a_, App) and a_.fn == "floordiv"]
                 lin = all(len(a_.args) == 2 and isinstance(a_.args[1], Const) and isinstance(a_.args[1].value, int) and a_.args[1].value > 0
                           and to_poly(a_.args[0]) is not None and all(sum(e_ for _a, e_ in m_) <= 1 for m_ in to_poly(a_.args[0]).t) and set(atoms_of(a_.args[0])) <= {NB} for a_ in fds)
@@ -227,10 +227,10 @@ def run(ctx, chk, tier):
                 if fds and lin and not others:
                     L = 1
                     for a_ in fds:
-                        L = L * a_.args[1].value // math.gcd(L, a_.args[1].value)
+                        L = L * a_.args[1].value // _math.gcd(L, a_.args[1].value)
                     try:
-                        tot_ok = all(evaluate(tot, {NB: Fraction(n_)}) == n_ for n_ in range(0, 2 * L + 2))
-                    except CannotEvaluate:
+                        tot_ok = all(_evaluate(tot, {NB: _Fraction(n_)}) == n_ for n_ in range(0, 2 * L + 2))
+                    except _CannotEvaluate:
                         tot_ok = False
             if len(ns) == len(parts) == 2 and tot_ok and kinds == ["THRESHOLD_AT_FNR", "THRESHOLD_AT_FPR"] and all(ok for _f, _n, ok in ns):
                 chk.hold("R15.4", "nb_points", "nb_points//2 thresholds along FNR + the rest along FPR = nb_points points (linspace 0..1 inclusive)")
